@@ -42,6 +42,10 @@ def fuse_consecutive_layers(mod: fx.GraphModule, first: Type[nn.Module], second:
     """
     # partially taken from: https://pytorch.org/tutorials/intermediate/fx_conv_bn_fuser.html
     modules = dict(mod.named_modules())
+    # a (first, second) pair of layers may be invoked at several call sites: it is fused once,
+    # the other call sites are only re-wired
+    fused = {}
+    n_fused = {}
     for node in mod.graph.nodes:
         if node.op != 'call_module':
             continue
@@ -52,12 +56,23 @@ def fuse_consecutive_layers(mod: fx.GraphModule, first: Type[nn.Module], second:
         if (is_second and is_prev_first):
             if len(node.args[0].users) > 1:
                 raise ValueError("The first layer of the pair to be fused has multiple users")
-            if in_place:
+            first_target = node.args[0].target
+            if first_target in fused:
+                if fused[first_target] != node.target:
+                    raise ValueError("The first layer of the pair to be fused is followed by "
+                                     "different layers at different call sites")
+            elif in_place:
                 fusion_fn(modules[node.args[0].target], modules[node.target])
             else:
                 new_first = fusion_fn(modules[node.args[0].target], modules[node.target])
                 assert isinstance(new_first, nn.Module)
                 replace_node_module(node.args[0], modules, new_first)
+            fused[first_target] = node.target
+            n_fused[first_target] = n_fused.get(first_target, 0) + 1
             node.replace_all_uses_with(node.args[0])
             mod.graph.erase_node(node)
+    for first_target in fused:
+        sites = [n for n in mod.graph.nodes if n.op == 'call_module' and n.target == first_target]
+        if len(sites) != n_fused[first_target]:
+            raise ValueError("The first layer of a fused pair is also used without the second one")
     mod.delete_all_unused_submodules()
